@@ -136,6 +136,18 @@ CHECKS = {
         design_ref='DESIGN.md §2 C14, §7; notes/C14.md',
         note='Trusted: the reference matcher / exact-cover search. At most 6 flagged atoms per case (the implementation search is factorial on unidentifiable groups). Two structural shapes and rename-ambiguous covers are counted, not judged (statement allows removal with warning).',
         technique='Hypothesis generated force fields and molecules with known ground truth; validity predicate via independent exact-cover search'),
+    'C10': dict(
+        category='exploration',
+        text=('Generated systems (1-3 input molecules; residues known to a toy force field, unknown, or with duplicated atom names; '
+              'residue identities re-used across input molecules; all elements of the radius table plus elements without radius; '
+              'pre-existing bonds; atoms placed at threshold x (1 +- 1e-6) from earlier atoms; six fudge factors; name/distance modes) '
+              'run through MakeBonds and compared with an O(n^2) reference written from the statement with an independently '
+              'transcribed Bondi table: no bond missing, none extra (each extra bond is attributed to the rule it breaks), edge '
+              'distances right, atoms preserved exactly once, residues never split, never fused across input molecules, residue '
+              'graph of every output molecule connected. Found and now guards F6, F7, F18.'),
+        design_ref='DESIGN.md §2 C10',
+        note='Trusted: the reference criteria and the independently transcribed radius table (20 elements; all others have no radius). Ties within 1e-9 relative go either way.',
+        technique='Hypothesis generated inputs with threshold construction vs. O(n^2) reference (two-directional edge-set comparison)'),
 }
 
 NOT_YET = 'check not built yet in this round (planned, see DESIGN.md §2)'
